@@ -65,11 +65,12 @@ def tinyw_const(rng):
   return fn
 
 
-def small_stats(scn):
-  """pipeline.inject_stats divided by 8 (still dyadic): input scales around 1e-3."""
+def small_stats(scn, div=8):
+  """pipeline.inject_stats divided by a power of two (still dyadic): input scales around 1e-3 (div 8) or, under 16-bit
+  activations, around 4e-8 (div 1024), where neighbouring tensors' scales differ by less than 1e-8."""
   def fn(q, model, info):
     st = pipeline.inject_stats(scn, info)
-    return {n: {k: (v / np.float32(8)) for k, v in e.items()} for n, e in st.items()}
+    return {n: {k: (v / np.float32(div)) for k, v in e.items()} for n, e in st.items()}
   return fn
 
 
